@@ -284,6 +284,8 @@ class Exec(ExprMixin, HeapMixin, StmtMixin, CallMixin, BuiltinMixin):
     def _reader(self, e, st, size, signed=False, little=False):
         data = self.ev(e.args[0], st)
         off = self.as_int(self.ev(e.args[1], st), st, e) if len(e.args) > 1 else I(0)
+        if isinstance(data.t, TOpt):
+            data = opt_get(data)  # readers are only meaningful under a 'x is not None' guard of the contract
         if isinstance(data.t, TList):
             raise Unsupported("reader on list")
         return V(INT, self.read_int(data.z, off, size, signed, little))
